@@ -437,6 +437,36 @@ def search_c14(results, tier, seed, broken):
                   "distribution": {"mul_by_a_samples": max(n - 8, 0)}}
 
 
+# ------------------------------------------------------------------ C06
+def search_c06(results, tier, seed, broken):
+    """the recorded operation sequences against the specified schedule (model) and against each other"""
+    hits, n, nontriv, dist = [], 0, set(), Counter()
+    for comp, streams, r in results:
+        if comp != "r1cs":
+            continue
+        for cid, s in r.summary.items():
+            im = r.impl.get(cid) or {}
+            tag = s.get("tag", "")
+            if 7 in im:
+                n += 1
+                ops = vlib.parse_tr(_ints(im[7]))
+                nontriv.add(tuple((k, l) for k, l, _ in ops))
+                dist["prover transcript ops=%d" % len(ops)] += 0
+            # honest, unmodified runs: prover and verifier sequences must be identical
+            if (tag.startswith("honest") or tag.startswith("cs ")) and 7 in im and 14 in im and s.get("verdict") == 0:
+                if im[7] != im[14]:
+                    a, b = vlib.parse_tr(_ints(im[7])), vlib.parse_tr(_ints(im[14]))
+                    k = next((i for i, (x, y) in enumerate(zip(a, b)) if x != y), min(len(a), len(b)))
+                    hits.append(_hit(r, comp, streams, cid, "honest run: prover and verifier transcripts diverge at operation %d (prover %s, verifier %s)" % (
+                        k, a[k][:2] if k < len(a) else None, b[k][:2] if k < len(b) else None)))
+        for cid, code, text in r.disagreements:
+            if code in (7, 14):
+                hits.append(_hit(r, comp, streams, cid, "transcript differs from the protocol schedule: " + text))
+        # a challenge that follows a diverging operation is derived from a different history
+    return hits, {"searched": n, "hits": len(hits), "distinct_nontrivial": len(nontriv), "distribution": _dist(results),
+                  "rule": "every transcript operation (kind, label, payload bytes = serialize_uncompressed of the object the schedule names, checked by decoding / MSM) of prover and verifier runs on honest, call-sequence and mutated-proof cases, 1- and 2-phase, 0..2 closures, 3 curves, compared with the model's schedule and with each other; distinct = distinct (kind,label) sequences"}
+
+
 PROPS = {
     "C01": {
         "prop_files": ["Properties/C01.v"], "run_files": ["Run/R1cs.v"],
@@ -458,6 +488,14 @@ PROPS = {
         "components": lambda tier: [("r1cs", ["honest", "violate", "mutate", "mutfields", "forced"], {})],
         "search": search_c03,
         "assumptions": ["field and module laws (hypotheses)", "challenges = oracle on the transcript history; the challenges the run inverts are non-zero (all_nz hypothesis)"],
+    },
+    "C06": {
+        "prop_files": ["Properties/C06.v"], "run_files": ["Run/R1cs.v"],
+        "level": "proof",
+        "components": lambda tier: [("r1cs", ["honest", "cs", "mutate"], {})],
+        "search": search_c06,
+        "assumptions": ["Merlin/STROBE + ChaCha + ScalarField::rand = one function RO of the operation history (random-oracle idealisation)",
+                        "byte encodings of payloads are arkworks' serialize_uncompressed (checked by K6: decoded / re-materialised)"],
     },
     "C09": {
         "prop_files": ["Properties/C09.v"], "run_files": ["Run/R1cs.v"],
